@@ -224,7 +224,14 @@ def to_list(ex: Any, x: V, st: State) -> Iterator[Tuple[V, State]]:
         ref, st = ex.alloc(st)
         key, bg = ex._bag_arr(st, x.elem)
         e = z3.Const(fresh_name("le"), sort_of(x.elem))
-        st = st.hset(key, z3.Store(bg, ref, z3.Lambda([e], z3.If(z3.Select(x.term, e), z3.IntVal(1), z3.IntVal(0)))))
+        if getattr(ex.contract, "axiom_bags", False):
+            # the bag as a fresh array with a defining axiom (lambda terms under other quantifiers make z3 give up)
+            B = z3.Const(fresh_name("lbag"), z3.ArraySort(sort_of(x.elem), z3.IntSort()))
+            st = st.assume(z3.ForAll([e], z3.Select(B, e) == z3.If(z3.Select(x.term, e), z3.IntVal(1), z3.IntVal(0)),
+                                     patterns=[z3.Select(B, e)]))
+            st = st.hset(key, z3.Store(bg, ref, B))
+        else:
+            st = st.hset(key, z3.Store(bg, ref, z3.Lambda([e], z3.If(z3.Select(x.term, e), z3.IntVal(1), z3.IntVal(0)))))
         yield VList(x.elem, "bag", ref), st
         return
     items = ex.concrete_items(x, st)
